@@ -45,6 +45,18 @@ def rollup_spec(K, i, upto=5, vv=VV, vm=VM, ex=None):
     return r
 
 
+def _masked(x):
+    return x is None or isinstance(x, (list, tuple))
+
+
+def _data(x):
+    if x is None:
+        return 0
+    if isinstance(x, (list, tuple)):
+        return x[1]
+    return x
+
+
 class Compare(Case):
     module = "ioos_qc.qartod"
     function = "qartod_compare"
@@ -68,6 +80,19 @@ class Compare(Case):
         e.n = mk.length("n")
         if mk.mode == "sym":
             e.K = mk.length("K", lo=1)
+            K, n = e.K, e.n
+
+            def extract(ev):
+                out = []
+                for q in range(ev(K)):
+                    row = []
+                    for i in range(ev(n)):
+                        v = ev(VV(z3.IntVal(q), z3.IntVal(i)))
+                        row.append(["m", v] if ev(VM(z3.IntVal(q), z3.IntVal(i))) else v)
+                    out.append(row)
+                return out
+
+            mk.decls.append(("custom", "vectors", extract))
         else:
             e.vectors = mk.values["vectors"]
             e.K = len(e.vectors)
@@ -104,13 +129,13 @@ class Compare(Case):
 
             vectors = []
             for v in e.vectors:
-                d = from_values([x if x is not None else 0 for x in v], "f")
-                m = from_values([x is None for x in v], "b")
+                d = from_values([_data(x) for x in v], "f")
+                m = from_values([_masked(x) for x in v], "b")
                 vectors.append(MArr(d, m))
         else:
             import numpy as np
 
-            vectors = [np.ma.array([x if x is not None else 0 for x in v], mask=[x is None for x in v], dtype="float64") for v in e.vectors]
+            vectors = [np.ma.array([float(_data(x)) for x in v], mask=[_masked(x) for x in v], dtype="float64") for v in e.vectors]
         return mod.qartod_compare(vectors)
 
     def _conc_spec(self, e, i):
@@ -118,7 +143,7 @@ class Compare(Case):
         order = {p: r for r, p in enumerate(PRIORITIES)}
         for v in e.vectors:
             x = v[i]
-            if x is not None and x in order and order[x] >= order[best]:
+            if not _masked(x) and x in order and order[x] >= order[best]:
                 best = x
         return best
 
@@ -136,7 +161,7 @@ class Compare(Case):
         return alg.eq(res.flag(k), MISS)
 
     def grid(self, tier, rng):
-        alpha = (1, 2, 3, 4, 9, 7, None)
+        alpha = (1, 2, 3, 4, 9, 7, None, ("m", 4), ("m", 1))
         for K in (1, 2, 3):
             for n in (0, 1, 2):
                 for cells in itertools.product(alpha, repeat=K * n):
@@ -314,11 +339,11 @@ class Aggregate(Case):
         if e.mode == "conc":
             from pyvc.npmodel import from_values
 
-            hs = [_Holder(MArr(from_values([x if x is not None else 0 for x in v], "f"), from_values([x is None for x in v], "b"))) for v in e.vectors]
+            hs = [_Holder(MArr(from_values([_data(x) for x in v], "f"), from_values([_masked(x) for x in v], "b"))) for v in e.vectors]
         else:
             import numpy as np
 
-            hs = [_Holder(np.ma.array([x if x is not None else 0 for x in v], mask=[x is None for x in v], dtype="float64")) for v in e.vectors]
+            hs = [_Holder(np.ma.array([float(_data(x)) for x in v], mask=[_masked(x) for x in v], dtype="float64")) for v in e.vectors]
         return mod.aggregate(hs)
 
     def explore_hook(self, sym):
